@@ -27,7 +27,7 @@ def run(chk, args):
     mc(chk, "n3", 3, "Vm2to2", "V0to2", "V0to2")
     mc(chk, "n4", 4, "V0to1" if q else "Vm1to1", "V0to1", "V0to1" if q else "V0to2", timeout=3000)
     fams = json.loads((vlib.VERIF / "harness" / "families.json").read_text())["all"]
-    summ = vlib.run_driver("drv_normalize", ["--out", str(chk.wd / "nm"), "--seed", str(chk.seed), "--ns", "3,4,5" if q else "3,4,5,6,7",
+    summ = vlib.run_driver("drv_normalize", ["--out", str(chk.wd / "nm"), "--seed", str(chk.seed), "--ns", "1,2,3,4,5" if q else "1,2,3,4,5,6,7",
                                              "--exact", str(36 if q else 240), "--families", ",".join(fams), "--seeds", str(3 if q else 20)], chk.wd)
     for f in summ["files"]:
         validate_file(chk, Path(f["path"]), f["n"], {"C15"}, "normalize", spec="Trace_Normalize")
